@@ -18,7 +18,7 @@ use crate::cer::{self, AuthCfg, HmacCfg};
 use crate::core::idx;
 use crate::model::authdata::{self, AT, ED};
 use crate::model::rpid::{HProvider, ProviderKind};
-use crate::model::util::{b64url, is_complete_record, public_from_scalar, sha256, snap, spki_point, verify_der, PkSnap};
+use crate::model::util::{b64url, public_from_scalar, sha256, snap, spki_point, verify_der, PkSnap};
 use crate::rt::{block_on, Disc, RefStore, ScriptedUv, StoreCall, UvScript};
 
 // ------------------------------------------------------------------ sites (origin, RP ID) accepted under C01
